@@ -1227,6 +1227,7 @@ class AstEval:
                     await func.trigger_init(self.global_ctx, name)
                 except Exception as e:
                     self.log_exception(e)
+                    func.trigger_stop()
                 func_var = EvalFuncVar(func)
                 func_var.set_ast_ctx(self)
 
